@@ -158,6 +158,18 @@ def term_to_value(t: dict):
                 "um_missing": V.UnboundMethodValue("no_such_method", Composite(V.TypedValue(U.OddMethods))),
                 "typedcallable": V.TypedValue(__import__("collections").abc.Callable),
                 "callbackproto": V.TypedValue(U.CallbackProto)}[t["n"]]
+    # ---- C14 substitution contexts (spec/SubstContexts.tla); add-only
+    if k == "tdx":  # TypedDictValue with extra_keys
+        return V.TypedDictValue({e["key"]: V.TypedDictEntry(term_to_value(e["t"]), required=bool(e["req"]),
+                                                             readonly=bool(e.get("ro", False))) for e in t["items"]},
+                                extra_keys=term_to_value(t["extra"][0]) if t["extra"] else None,
+                                extra_keys_readonly=bool(t["xro"]))
+    if k == "asynctask":
+        return V.AsyncTaskIncompleteValue(list, term_to_value(t["t"]))
+    if k == "exactly":  # SubclassValue(typ, exactly=True)
+        return V.SubclassValue(term_to_value(t["t"]), exactly=True)
+    if k == "knowntv":  # KnownValueWithTypeVars (only ever a result of substitute_typevars)
+        return V.KnownValueWithTypeVars(obj_to_py(t["o"]), {U.T: V.TypedValue(int)})
     raise MachineryError(f"cannot decode term {t}")
 
 
@@ -189,6 +201,11 @@ def _extension(m: dict):
         return V.SysPlatformExtension()
     if kind == "deprecated":
         return V.DeprecatedExtension("old")
+    # C14 (add-only): the remaining Extension classes that carry Values
+    if kind == "noreturnguard":
+        return V.NoReturnGuardExtension("x", term_to_value(m["t"]))
+    if kind == "hasattrguard":
+        return V.HasAttrGuardExtension("x", V.KnownValue("y"), term_to_value(m["t"]))
     raise MachineryError(f"cannot decode extension {m}")
 
 
@@ -258,6 +275,127 @@ def _value_to_term_dictinc(v) -> dict:
     if type(v) is V.GenericValue:
         return {"k": "generic", "c": U.CLASS_NAME.get(v.typ, "other"), "args": [rec(a) for a in v.args]}
     return value_to_term(v)
+
+
+# --------------------------------------------------------------------------- C14: wide encoder (add-only)
+def _obj_wide(x: Any) -> dict:
+    """py_to_obj that also recognises the odd objects of the universe (by identity)."""
+    for name, obj in U.ODD.items():
+        if obj is x:
+            return {"c": "odd", "v": name, "items": []}
+    return py_to_obj(x)
+
+
+def _ext_to_term(e) -> dict:
+    """Inverse of _extension.  Attributes of an Extension that are fixed by the decoder (variable / attribute names) are
+    checked: if the real code changed one of them the kind is suffixed with '!' so that TLC sees a different term."""
+    from pyanalyze import extensions as E
+    from pyanalyze import value as V
+
+    w = value_to_term_wide
+    anyt = {"k": "any", "src": "explicit"}
+    if isinstance(e, V.Value):
+        return {"x": "value", "t": w(e)}
+    if isinstance(e, V.CustomCheckExtension):
+        if isinstance(e.custom_check, E.LiteralOnly):
+            return {"x": "literalonly", "t": anyt}
+        if isinstance(e.custom_check, E.NoAny):
+            return {"x": "noany" if e.custom_check.deep else "noany!", "t": anyt}
+        return {"x": "customcheck!", "t": anyt}
+    if isinstance(e, V.HasAttrExtension):
+        return {"x": "hasattr" if e.attribute_name == V.KnownValue("x") else "hasattr!", "t": w(e.attribute_type)}
+    if isinstance(e, V.HasAttrGuardExtension):
+        ok = e.varname == "x" and e.attribute_name == V.KnownValue("y")
+        return {"x": "hasattrguard" if ok else "hasattrguard!", "t": w(e.attribute_type)}
+    if isinstance(e, V.TypeGuardExtension):
+        return {"x": "typeguard", "t": w(e.guarded_type)}
+    if isinstance(e, V.TypeIsExtension):
+        return {"x": "typeis", "t": w(e.guarded_type)}
+    if isinstance(e, V.ParameterTypeGuardExtension):
+        return {"x": "paramguard" if e.varname == "x" else "paramguard!", "t": w(e.guarded_type)}
+    if isinstance(e, V.NoReturnGuardExtension):
+        return {"x": "noreturnguard" if e.varname == "x" else "noreturnguard!", "t": w(e.guarded_type)}
+    if isinstance(e, V.AlwaysPresentExtension):
+        return {"x": "alwayspresent", "t": anyt}
+    if isinstance(e, V.DefiniteValueExtension):
+        return {"x": "definite" if e.value is True else "definite!", "t": anyt}
+    if isinstance(e, V.SysPlatformExtension):
+        return {"x": "sysplatform", "t": anyt}
+    if isinstance(e, V.DeprecatedExtension):
+        return {"x": "deprecated" if e.deprecation_message == "old" else "deprecated!", "t": anyt}
+    raise MachineryError(f"extension {e!r} is outside the modelled algebra")
+
+
+def value_to_term_wide(v) -> dict:
+    """pyanalyze Value -> term, for the wide term language of spec/SubstContexts.tla: everything value_to_term(dictinc=True)
+    encodes plus AnnotatedValue (kept, with its metadata), CallableValue, TypedDict extra keys, SubclassValue(exactly=True),
+    UnpackedValue, AsyncTaskIncompleteValue, KnownValueWithTypeVars, KnownValue of an odd object, TypeVarValue with bound /
+    constraints.  Attributes outside the term language that the decoder fixes are encoded as a visible change ('!')."""
+    from pyanalyze import signature as S
+    from pyanalyze import value as V
+
+    w = value_to_term_wide
+    if isinstance(v, V.AnnotatedValue):
+        return {"k": "annotated", "t": w(v.value), "md": [_ext_to_term(e) for e in v.metadata]}
+    if isinstance(v, V.KnownValueWithTypeVars):
+        return {"k": "knowntv", "o": _obj_wide(v.val)}
+    if isinstance(v, V.KnownValue):
+        return {"k": "known", "o": _obj_wide(v.val)}
+    if isinstance(v, V.TypeVarValue):
+        name = getattr(v.typevar, "__name__", "other")
+        if v.bound is None and not v.constraints and not v.is_paramspec and not v.is_typevartuple:
+            return {"k": "typevar", "n": name}
+        return {"k": "tvar", "n": name, "bound": [w(v.bound)] if v.bound is not None else [], "cons": [w(c) for c in v.constraints]}
+    if isinstance(v, V.MultiValuedValue):
+        return {"k": "union", "ms": [w(m) for m in v.vals]}
+    if isinstance(v, V.SubclassValue):
+        return {"k": "exactly" if v.exactly else "subclass", "t": w(v.typ)}
+    if isinstance(v, V.UnpackedValue):
+        return {"k": "unpacked", "t": w(v.value)}
+    if isinstance(v, V.TypedDictValue):
+        items = [{"key": k, "req": bool(e.required), "ro": bool(e.readonly), "t": w(e.typ)} for k, e in v.items.items()]
+        if v.extra_keys is None and not v.extra_keys_readonly:
+            return {"k": "typeddict", "c": "dict", "items": items}
+        return {"k": "tdx", "c": "dict", "items": items, "extra": [w(v.extra_keys)] if v.extra_keys is not None else [],
+                "xro": bool(v.extra_keys_readonly)}
+    if isinstance(v, V.SequenceValue):
+        return {"k": "seq", "c": U.CLASS_NAME.get(v.typ, "other"), "ms": [{"many": bool(m), "t": w(t)} for m, t in v.members]}
+    if isinstance(v, V.DictIncompleteValue):
+        return {"k": "dictinc", "c": U.CLASS_NAME.get(v.typ, "other"),
+                "kvs": [{"key": w(p.key), "val": w(p.value), "many": bool(p.is_many), "req": bool(p.is_required)} for p in v.kv_pairs]}
+    if isinstance(v, V.AsyncTaskIncompleteValue):
+        return {"k": "asynctask" if v.typ is list else "asynctask!", "t": w(v.value)}
+    if isinstance(v, V.CallableValue):
+        sig = v.signature
+        if not isinstance(sig, S.Signature):
+            raise MachineryError(f"callable {v!r} is outside the modelled algebra")
+        kinds = {S.ParameterKind.POSITIONAL_ONLY: "pos", S.ParameterKind.POSITIONAL_OR_KEYWORD: "pk",
+                 S.ParameterKind.KEYWORD_ONLY: "kw", S.ParameterKind.VAR_POSITIONAL: "var",
+                 S.ParameterKind.VAR_KEYWORD: "varkw", S.ParameterKind.PARAM_SPEC: "pspec", S.ParameterKind.ELLIPSIS: "ellipsis"}
+        ps = []
+        for name, prm in sig.parameters.items():
+            unann = isinstance(prm.annotation, V.AnyValue) and prm.annotation.source is V.AnySource.unannotated
+            d = prm.default is not None
+            kind = kinds[prm.kind]
+            if name != prm.name or (d and prm.default != V.KnownValue(None)):
+                kind += "!"
+            ps.append({"n": prm.name, "kind": kind, "t": [] if unann else [w(prm.annotation)], "d": d})
+        out = {"k": "callable", "ps": ps, "ret": w(sig.return_value)}
+        if sig.is_asynq:
+            out["asynq"] = True
+        import collections.abc
+
+        if (v.typ is not collections.abc.Callable or not sig.has_return_annotation or sig.allow_call or sig.evaluator is not None
+                or sig.deprecated is not None or sig.impl is not None or sig.callable is not None):
+            out["k"] = "callable!"
+        return out
+    if type(v) is V.GenericValue:
+        return {"k": "generic", "c": U.CLASS_NAME.get(v.typ, "other"), "args": [w(a) for a in v.args]}
+    if isinstance(v, V.AnyValue) and v.source is V.AnySource.unannotated:
+        return {"k": "any", "src": "unannotated"}
+    if isinstance(v, (V.AnyValue, V.NewTypeValue)) or type(v) is V.TypedValue:
+        return value_to_term(v)
+    raise MachineryError(f"value {v!r} is outside the modelled algebra")
 
 
 # --------------------------------------------------------------------------- type terms -> annotation source
